@@ -67,7 +67,9 @@ class CallMixin:
         if isinstance(f, (SObj, SOpaque)):
             # calling a callable value (handler, hook)
             self.run.effect("call", f, None, list(args), node, extra=dict(kwargs))
-            return SOpaque(("result-of", short(f)))
+            r = SObj(f"{getattr(f, 'name', 'callable')}(...)", ALL_KINDS, origin="opaque")
+            r.meta["result_of"] = (f, list(args))
+            return r
         raise self.unmodelled(f"call of {type(f).__name__}", node)
 
     # ------------------------------------------------------------------ repo functions
@@ -655,6 +657,8 @@ class CallMixin:
             o.meta["copy_of"] = v
             o.meta["copy_mode"] = "lazy"
             o.meta["elem_origin"] = _elem_origin(v)
+            o.twins.append(v)
+            v.twins.append(o)
             return o
         if isinstance(v, (SObj, SNew)):
             mode = self.copy_mode(v, node)
